@@ -177,7 +177,17 @@ fn gen_text(rng: &mut Rng, sink: &mut Sink, big: bool) -> String {
             let n = 32766 + rng.below(2) as usize;
             (0..n).map(|_| *rng.pick(&['a', 'b', 'q'])).collect()
         }
-        _ => gen_short(rng),
+        _ => {
+            let mut t = gen_short(rng);
+            if rng.chance(1, 10) {
+                // backslash sequences that are NOT escapes (the text they denote is themselves), closed by a character that
+                // can complete no escape
+                sink.tag("backslash_non_escape");
+                t.push_str(*rng.pick(&["\\", "\\u", "\\u12", "\\u{}", "\\u{1234567}", "\\x41", "\\u{12", "\\uZZZZ", "\\U0041", "\\u{12 }", "\\u123g", "\\\\"]));
+                t.push(*rng.pick(&['ん', '-', ' ', '東']));
+            }
+            t
+        }
     }
 }
 
@@ -192,7 +202,11 @@ fn esc(rng: &mut Rng, s: &str, sink: &mut Sink) -> String {
             sink.tag("escape_used");
             let v = c as u32;
             if v <= 0xffff && rng.chance(1, 2) {
-                write!(out, "\\u{:04x}", v).unwrap();
+                if rng.chance(1, 2) {
+                    write!(out, "\\u{:04X}", v).unwrap();
+                } else {
+                    write!(out, "\\u{:04x}", v).unwrap();
+                }
             } else if rng.chance(1, 2) {
                 write!(out, "\\u{{{:X}}}", v).unwrap();
             } else {
@@ -204,8 +218,22 @@ fn esc(rng: &mut Rng, s: &str, sink: &mut Sink) -> String {
     }
     out
 }
+/// a number as i16::from_str / u32::from_str read it: optional `+`, leading zeros
+fn num_lit(rng: &mut Rng, v: i64, plus_ok: bool) -> String {
+    match rng.below(12) {
+        0 if plus_ok && v >= 0 => format!("+{}", v),
+        1 => {
+            if v < 0 {
+                format!("-00{}", -v)
+            } else {
+                format!("00{}", v)
+            }
+        }
+        _ => v.to_string(),
+    }
+}
 fn csv_quote(s: &str) -> String {
-    if s.contains(',') || s.contains('"') || s.contains('\n') {
+    if s.contains(',') || s.contains('"') || s.contains('\n') || s.contains('\r') {
         format!("\"{}\"", s.replace('"', "\"\""))
     } else {
         s.to_string()
@@ -240,8 +268,8 @@ fn gen_pos_pool(rng: &mut Rng, sink: &mut Sink) -> Vec<Pos> {
 
 fn render_ref(r: &Ref, pool: &[Pos], rng: &mut Rng, sink: &mut Sink) -> String {
     match r {
-        Ref::Sys(n) => format!("{}", n),
-        Ref::User(n) => format!("U{}", n),
+        Ref::Sys(n) => num_lit(rng, *n as i64, false),
+        Ref::User(n) => format!("U{}", num_lit(rng, *n as i64, false)),
         Ref::Inline { surface, pos, reading } => {
             let p = &pool[*pos];
             format!(
@@ -264,15 +292,16 @@ fn render_list(rs: &[Ref], star: bool, pool: &[Pos], rng: &mut Rng, sink: &mut S
     }
     rs.iter().map(|r| render_ref(r, pool, rng, sink)).collect::<Vec<_>>().join("/")
 }
-pub fn render_csv(lex: &Lex, pool: &[Pos], rng: &mut Rng, sink: &mut Sink) -> String {
-    let mut out = String::new();
+/// the fields of every row as the csv crate hands them to parse_record
+pub fn render_fields(lex: &Lex, pool: &[Pos], rng: &mut Rng, sink: &mut Sink) -> Vec<Vec<String>> {
+    let mut out = vec![];
     for r in &lex.rows {
         let p = &pool[r.pos];
         let mut cols: Vec<String> = vec![
             esc(rng, &r.surface, sink),
-            r.left.to_string(),
-            r.right.to_string(),
-            r.cost.to_string(),
+            num_lit(rng, r.left as i64, true),
+            num_lit(rng, r.right as i64, true),
+            num_lit(rng, r.cost as i64, true),
             esc(rng, &r.headword, sink),
         ];
         for k in 0..6 {
@@ -282,24 +311,47 @@ pub fn render_csv(lex: &Lex, pool: &[Pos], rng: &mut Rng, sink: &mut Sink) -> St
         cols.push(esc(rng, &r.norm, sink));
         cols.push(match &r.dic_form {
             DicForm::None => "*".to_string(),
-            DicForm::Num(n) => n.to_string(),
-            DicForm::U(n) => format!("U{}", n),
+            DicForm::Num(n) => num_lit(rng, *n as i64, true),
+            DicForm::U(n) => format!("U{}", num_lit(rng, *n as i64, true)),
         });
         cols.push(r.mode.to_string());
         cols.push(render_list(&r.split_a, r.star_lists, pool, rng, sink));
         cols.push(render_list(&r.split_b, r.star_lists, pool, rng, sink));
-        cols.push(render_list(&r.word_structure, r.star_lists, pool, rng, sink));
+        // the word-structure column is read by parse_wordid without the literal regex: a sign is accepted there
+        cols.push(if r.word_structure.is_empty() {
+            if r.star_lists { "*".into() } else { String::new() }
+        } else {
+            r.word_structure
+                .iter()
+                .map(|x| match x {
+                    Ref::Sys(n) => num_lit(rng, *n as i64, true),
+                    Ref::User(n) => format!("U{}", num_lit(rng, *n as i64, true)),
+                    _ => unreachable!(),
+                })
+                .collect::<Vec<_>>()
+                .join("/")
+        });
         if let Some(sy) = &r.synonyms {
             cols.push(if sy.is_empty() {
                 if r.star_lists { "*".into() } else { String::new() }
             } else {
-                sy.iter().map(|x| x.to_string()).collect::<Vec<_>>().join("/")
+                sy.iter().map(|x| num_lit(rng, *x as i64, true)).collect::<Vec<_>>().join("/")
             });
         }
+        out.push(cols);
+    }
+    out
+}
+pub fn csv_of_fields(rows: &[Vec<String>]) -> String {
+    let mut out = String::new();
+    for cols in rows {
         out.push_str(&cols.iter().map(|c| csv_quote(c)).collect::<Vec<_>>().join(","));
         out.push('\n');
     }
     out
+}
+pub fn render_csv(lex: &Lex, pool: &[Pos], rng: &mut Rng, sink: &mut Sink) -> String {
+    csv_of_fields(&render_fields(lex, pool, rng, sink))
 }
 pub fn render_matrix(m: &Matrix, rng: &mut Rng) -> String {
     let mut s = String::new();
@@ -393,8 +445,8 @@ pub fn gen_lex(rng: &mut Rng, sink: &mut Sink, pool: &[Pos], sys: Option<&Lex>, 
         };
         let reading = form(rng, sink);
         let norm = form(rng, sink);
-        let mode = *rng.pick(&["A", "A", "B", "C", "*", "a", "c", "BC"]);
-        let modeless = mode == "A" || mode == "a";
+        let mode = *rng.pick(&["A", "A", "B", "C", "*", "a", "c", "BC", " A", "b\t", "\u{3000}C ", "a\u{a0}", " BC", "\u{2003}*"]);
+        let modeless = mode.trim() == "A" || mode.trim() == "a";
         let mut split_a = if modeless { vec![] } else { gen_ids(rng, n_sys, n, user, sink) };
         let mut split_b = if modeless { vec![] } else { gen_ids(rng, n_sys, n, user, sink) };
         // inline references: aimed at an earlier own row or a system row whose surface equals its headword
@@ -476,6 +528,30 @@ pub fn gen_lex(rng: &mut Rng, sink: &mut Sink, pool: &[Pos], sys: Option<&Lex>, 
             }
         }
         rows.push(row);
+    }
+    // inline references to LATER rows: the reference is resolved after all rows are read, but its POS is numbered when the
+    // referring row is read, i.e. before the row that owns it (first occurrence in file order, split columns first)
+    for i in 0..rows.len() {
+        let md = rows[i].mode.trim();
+        if md == "A" || md == "a" || !rng.chance(1, 5) {
+            continue;
+        }
+        let cands: Vec<usize> = (i + 1..rows.len())
+            .filter(|j| rows[*j].surface == rows[*j].headword && !rows[*j].reading.is_empty() && rows[*j].surface.len() < 300 && rows[*j].reading.len() < 300)
+            .collect();
+        if cands.is_empty() {
+            continue;
+        }
+        let t = rows[*rng.pick(&cands)].clone();
+        let r = Ref::Inline { surface: t.surface.clone(), pos: t.pos, reading: t.reading.clone() };
+        sink.tag("inline_split_ref_forward");
+        if rng.chance(1, 2) {
+            if rows[i].split_a.len() < 127 {
+                rows[i].split_a.push(r);
+            }
+        } else if rows[i].split_b.len() < 127 {
+            rows[i].split_b.insert(0, r);
+        }
     }
     Lex { rows, user }
 }
@@ -743,6 +819,7 @@ pub fn load_with_user(sys: Vec<u8>, user: Vec<Vec<u8>>) -> Result<JapaneseDictio
 }
 
 // ---------------------------------------------------------------- Coq side of one dictionary
+#[allow(dead_code)]
 fn entries_coq(lex: &Lex, e: &Expected) -> String {
     clist(lex.rows.iter().enumerate().map(|(i, r)| {
         format!(
@@ -764,6 +841,11 @@ fn entries_coq(lex: &Lex, e: &Expected) -> String {
     }))
 }
 /// the rows as the Resolve model takes them: index form, entry without split arrays, split units as written
+/// the CSV fields of every row, as texts
+pub fn fields_coq(rows: &[Vec<String>]) -> String {
+    clist(rows.iter().map(|r| clist(r.iter().map(|f| ctxt(f)))))
+}
+#[allow(dead_code)]
 fn rows_coq(lex: &Lex, e: &Expected) -> String {
     clist(lex.rows.iter().enumerate().map(|(i, r)| {
         let mut k = 0usize;
@@ -822,6 +904,8 @@ pub struct Case {
     pub matrix: Matrix,
     pub user: Option<Lex>,
     pub sys_csv: String,
+    pub sys_fields: Vec<Vec<String>>,
+    pub user_fields: Vec<Vec<String>>,
     pub matrix_text: String,
     pub user_csv: String,
     pub time: u64,
@@ -833,8 +917,10 @@ pub fn gen_case(rng: &mut Rng, sink: &mut Sink, want_user: bool, big: bool, find
     let ids = matrix.nl.min(matrix.nr) as i16;
     let sys = gen_lex(rng, sink, &pool, None, ids, big && !want_user, false);
     let user = if want_user { Some(gen_lex(rng, sink, &pool, Some(&sys), ids, big, findings)) } else { None };
-    let sys_csv = render_csv(&sys, &pool, rng, sink);
-    let user_csv = user.as_ref().map(|u| render_csv(u, &pool, rng, sink)).unwrap_or_default();
+    let sys_fields = render_fields(&sys, &pool, rng, sink);
+    let sys_csv = csv_of_fields(&sys_fields);
+    let user_fields = user.as_ref().map(|u| render_fields(u, &pool, rng, sink)).unwrap_or_default();
+    let user_csv = csv_of_fields(&user_fields);
     let matrix_text = render_matrix(&matrix, rng);
     let descr = match rng.below(4) {
         0 => String::new(),
@@ -842,7 +928,7 @@ pub fn gen_case(rng: &mut Rng, sink: &mut Sink, want_user: bool, big: bool, find
         2 => "説明 💞 description".to_string(),
         _ => gen_short(rng),
     };
-    Case { pool, sys, matrix, user, sys_csv, matrix_text, user_csv, time: rng.below(1 << 40), descr }
+    Case { pool, sys, matrix, user, sys_csv, sys_fields, user_fields, matrix_text, user_csv, time: rng.below(1 << 40), descr }
 }
 
 fn version_of(user: bool) -> u64 {
@@ -932,7 +1018,7 @@ pub fn run_case(sink: &mut Sink, c: &Case, desc: Value, verbose: bool) {
                 }
                 sink.tag(if (view.as_ptr() as usize) % 2 == 1 { "loaded_unaligned" } else { "loaded_aligned" });
             }
-            let term = full_term(&c.sys, &sys_exp, None, &c.matrix, &sys_bytes, c.time, &c.descr, 0, 0, 0, &rbs, &conn_reads);
+            let term = full_term(&c.sys, &c.sys_fields, None, &c.matrix, &sys_bytes, c.time, &c.descr, 0, 0, 0, &rbs, &conn_reads);
             let expd = expected_rb(&c.sys, &sys_exp, 0);
             for (i, (x, y)) in expd.iter().zip(rbs.iter()).enumerate() {
                 if x != y && bad.is_none() {
@@ -1030,10 +1116,10 @@ pub fn run_case(sink: &mut Sink, c: &Case, desc: Value, verbose: bool) {
             let term = if has_finding_row {
                 sections(&ub).map(|s| {
                     format!(
-                        "check_c05_model_only_rows {} true {} {} {} 1%N {} {} {}",
+                        "check_c05_model_only_csv {} {} {} {} 1%N {} {} {}",
                         cnu(s.words_offset),
-                        rows_coq(user, &uexp),
-                        entries_coq(&c.sys, &sys_exp),
+                        fields_coq(&c.sys_fields),
+                        fields_coq(&c.user_fields),
                         cblob(s.words),
                         cnu(nsys),
                         cnu(nsys),
@@ -1041,7 +1127,7 @@ pub fn run_case(sink: &mut Sink, c: &Case, desc: Value, verbose: bool) {
                     )
                 })
             } else {
-                full_term(user, &uexp, Some((&c.sys, &sys_exp)), &um, &ub, c.time, &c.descr, 1, nsys, nsys, &rbs, &[])
+                full_term(user, &c.user_fields, Some(&c.sys_fields), &um, &ub, c.time, &c.descr, 1, nsys, nsys, &rbs, &[])
             };
             let id = match term {
                 Some(t) => sink.case(t, desc, true),
@@ -1085,8 +1171,8 @@ fn expected_rb(lex: &Lex, e: &Expected, dic: u8) -> Vec<Readback> {
 #[allow(clippy::too_many_arguments)]
 fn full_term(
     lex: &Lex,
-    e: &Expected,
-    sys: Option<(&Lex, &Expected)>,
+    fields: &[Vec<String>],
+    sys_fields: Option<&[Vec<String>]>,
     m: &Matrix,
     bytes: &[u8],
     time: u64,
@@ -1099,12 +1185,11 @@ fn full_term(
 ) -> Option<String> {
     let s = sections(bytes)?;
     Some(format!(
-        "check_c05_rows {} {} {} {} {} {} {} {} {} {} {} {} {} {} {} {} {} {} {} {} {}",
+        "check_c05_csv {} {} {} {} {} {} {} {} {} {} {} {} {} {} {} {} {} {} {} {}",
         cn(version_of(lex.user)),
         cn(time),
         cblob(descr.as_bytes()),
         cblob(s.header),
-        clist(e.new_pos.iter().map(|p| clist(p.iter().map(|x| ctxt(x))))),
         cblob(s.pos),
         cn(m.nl),
         cn(m.nr),
@@ -1113,8 +1198,8 @@ fn full_term(
         clist(conn_reads.iter().map(|(l, r, c)| format!("({}, {}, {})", cn(*l), cn(*r), cz(*c as i64)))),
         cnu(s.words_offset),
         cbool(lex.user),
-        rows_coq(lex, e),
-        sys.map(|(l, x)| entries_coq(l, x)).unwrap_or_else(|| "[]".to_string()),
+        sys_fields.map(fields_coq).unwrap_or_else(|| "[]".to_string()),
+        fields_coq(fields),
         cblob(s.words),
         cn(dic),
         cnu(nsys),
@@ -1122,6 +1207,154 @@ fn full_term(
         clist((0..lex.rows.len()).map(|i| ctxt(&expected_dicform(lex, i)))),
         clist(rbs.iter().map(|r| r.coq()))
     ))
+}
+
+/// kind of a build error as the model names it: (code, digits of a bad escape)
+fn error_kind(e: &str) -> Option<(u32, String)> {
+    let i = e.find("cause: ")?;
+    let c = &e[i + 7..];
+    let name: String = c.chars().take_while(|ch| ch.is_alphanumeric()).collect();
+    let arg = || {
+        let a = c.find("(\"")? + 2;
+        let b = c[a..].find('"')? + a;
+        Some(c[a..b].to_string())
+    };
+    Some(match name.as_str() {
+        "InvalidSize" => (1, String::new()),
+        "InvalidCharLiteral" => {
+            let d = arg()?;
+            if d == "0 in surface" {
+                (12, String::new())
+            } else {
+                (2, d)
+            }
+        }
+        "InvalidI16Literal" => (3, String::new()),
+        "InvalidU32Literal" => (4, String::new()),
+        "InvalidWordId" => (5, String::new()),
+        "InvalidSplit" => {
+            if arg()?.starts_with("A-mode") {
+                (10, String::new())
+            } else {
+                (6, String::new())
+            }
+        }
+        "SplitFormatError" => (7, String::new()),
+        "NoRawField" => (8, String::new()),
+        "PosLimitExceeded" => (9, String::new()),
+        "EmptySurface" => (11, String::new()),
+        _ => return None,
+    })
+}
+
+/// rows the field parsers must refuse, one defect per case (sometimes a second, later one, to pin the order in which the
+/// columns are read): the model refuses them with the same kind of error
+fn rejected_rows(sink: &mut Sink, rng: &mut Rng, n: usize) {
+    let good: Vec<String> = "京都,0,0,5293,京都,名詞,固有名詞,地名,一般,*,*,キョウト,京都,*,C,*,*,*,*".split(',').map(|x| x.to_string()).collect();
+    let long = "a".repeat(32768);
+    let many = vec!["0"; 128].join("/");
+    let bad_escapes = ["\\uD800", "\\udfff", "x\\u{D800}y", "\\u{110000}", "\\u{FFFFFF}", "\\uDBFF\\uDC00", "\\u0041\\ud800", "\\u{dFfF}", "\\u{00d800}"];
+    let bad_i16 = ["32768", "-32769", "1.5", "", "+", "-", "--1", " 5", "5 ", "１２", "0x10", "1e3", "+-1", "99999999999999999999"];
+    let bad_u32 = ["-1", "4294967296", "1//2", "a", "1/", "+", "-0", "1/ 2"];
+    let bad_wid = ["268435456", "U", "Ux", "-1", "U-1", "4294967296", "**", "U268435456", "u1"];
+    let bad_mode = ["D", "", "AB", "A B", "Ａ", "bc", "**"];
+    let bad_inline = ["東,名詞", "x", "+3", "U", "東,名詞,普通名詞,一般,*,*,*", "U+1"];
+    for k in 0..n {
+        let mut row = good.clone();
+        let what: String;
+        match k % 14 {
+            0 => {
+                let c = *rng.pick(&[0usize, 4, 5, 7, 10, 11, 12]);
+                row[c] = rng.pick(&bad_escapes).to_string();
+                what = format!("column {}: escape naming no scalar value", c);
+            }
+            1 => {
+                let c = *rng.pick(&[0usize, 4, 6, 11, 12]);
+                row[c] = long.clone();
+                what = format!("column {}: 32768 bytes", c);
+            }
+            2 => {
+                let c = 1 + rng.below(3) as usize;
+                row[c] = rng.pick(&bad_i16).to_string();
+                what = format!("column {}: no i16 literal", c);
+            }
+            3 => {
+                row[18] = rng.pick(&bad_u32).to_string();
+                what = "synonym column: no u32 literal".into();
+            }
+            4 => {
+                let c = *rng.pick(&[13usize, 17]);
+                row[c] = rng.pick(&bad_wid).to_string();
+                what = format!("column {}: no word id", c);
+            }
+            5 => {
+                row[14] = rng.pick(&bad_mode).to_string();
+                what = "no mode".into();
+            }
+            6 => {
+                row[14] = rng.pick(&["A", "a", " A "]).to_string();
+                row[*rng.pick(&[15usize, 16])] = "0".into();
+                what = "mode A with splits".into();
+            }
+            7 => {
+                row[0] = rng.pick(&["", "\\u0000", "a\\u{0}b"]).to_string();
+                what = "empty surface / NUL in the surface".into();
+            }
+            8 => {
+                row[*rng.pick(&[15usize, 16])] = rng.pick(&bad_inline).to_string();
+                what = "inline reference with fewer than 8 fields".into();
+            }
+            9 => {
+                row[*rng.pick(&[15usize, 16, 17, 18])] = many.clone();
+                what = "list of 128 items".into();
+            }
+            10 => {
+                row.truncate(*rng.pick(&[17usize, 5, 1, 14]));
+                what = "row with too few columns".into();
+            }
+            11 => {
+                // inline reference whose own field carries a bad escape
+                row[15] = format!("東,名詞,普通名詞,{},*,*,*,ヒガシ", rng.pick(&bad_escapes));
+                what = "inline reference: escape naming no scalar value".into();
+            }
+            12 => {
+                // two defects: the earlier column decides
+                row[3] = "x".into();
+                row[13] = "U".into();
+                row[4] = "\\uD800".into();
+                what = "cost, headword and dictionary form bad: the cost is read first".into();
+            }
+            _ => {
+                row[12] = "\\u{110000}".into();
+                row[18] = "x".into();
+                what = "normalised form and synonyms bad: the form is read first".into();
+            }
+        }
+        let mut rows = vec![];
+        if rng.chance(1, 2) {
+            rows.push(good.clone());
+        }
+        rows.push(row);
+        let csv = csv_of_fields(&rows);
+        let desc = json!({"kind": "c05-rejected", "what": what, "fields": if csv.len() < 600 { json!(rows) } else { json!("(long)") }});
+        match compile_system(&csv, "1 1\n0 0 0\n", 0, "") {
+            Err(e) if !e.starts_with("PANIC") => match error_kind(&e) {
+                Some((code, digits)) => {
+                    sink.tag(&format!("rejected_kind_{}", code));
+                    sink.case(format!("check_c05_reject {} {} {}", fields_coq(&rows), cn(code), ctxt(&digits)), desc, true);
+                }
+                None => {
+                    let id = sink.case_rust_only(desc, false);
+                    sink.fail(id, &format!("{}: refused with an error the model has no name for: {}", what, e), "");
+                }
+            },
+            Err(_) => sink.tag("malformed_compiler_panic"), // a compiler panic on malformed input belongs to C06
+            Ok(_) => {
+                let id = sink.case_rust_only(desc, false);
+                sink.fail(id, &format!("malformed row accepted: {}", what), "");
+            }
+        }
+    }
 }
 
 /// inputs the compiler must reject (never a silently different dictionary)
@@ -1181,7 +1414,7 @@ fn case_from_state(state: u64, user: bool, big: bool, findings: bool, sink: &mut
 }
 
 pub fn run(args: &Args) {
-    let mut sink = Sink::new("C05", &args.out, &["Model.Codec", "Model.CodecIO", "Model.CodecResolve", "Model.CodecCheck"], args.seed, &args.tier);
+    let mut sink = Sink::new("C05", &args.out, &["Model.Codec", "Model.CodecIO", "Model.CodecResolve", "Model.CodecCsv", "Model.CodecCheck"], args.seed, &args.tier);
     sink.shard_size = 40;
     sink.rule("random lexicons of 1..7 rows (strings of 1..3 chars or 126/127/128/129/255..257/32766/32767 UTF-16 units mixing kana, kanji, ASCII, U+7F/80/7FF/800/D7FF/E000/FFFF and astral characters, \\uXXXX and \\u{X} escapes, forms empty / equal to the headword / different, index form of 126..128 bytes, arrays of 0/1/2/127 ids, numeric, U-prefixed and inline references, dictionary-form references, synonym column present/absent/empty) x matrices 1..5 x 1..5 (non-square, duplicated and missing cells, extreme costs) x system / user dictionary; non-trivial = at least two rows (system) or a user dictionary; distinct by generated Coq term");
     if let Some(p) = &args.replay {
@@ -1227,5 +1460,6 @@ pub fn run(args: &Args) {
         }
     }
     malformed(&mut sink, &mut rng, args.n(12, 60));
+    rejected_rows(&mut sink, &mut rng, args.n(140, 1400));
     sink.finish();
 }
